@@ -21,12 +21,14 @@ package raterun
 //@
 //@ func New
 //@   props C18
+//@   modifies tickerPeriod, timerDelay, timerStopped, closedchans
 //@   requires fn != nil && (forall j int :: 0 <= j && j < len(schedules) ==> schedules[j].Frequency > 0)
 //@   ensures [empty] len(schedules) == 0 ==> result.0 == nil && result.1 != nil
 //@   ensures [made] len(schedules) > 0 ==> result.1 == nil && wfRunner(result.0) && !closed(result.0.stopped) && result.0.schedules.currentScheduleIndex == -1
 //@
 //@ func newSchedules
 //@   props C18
+//@   modifies tickerPeriod, timerDelay, timerStopped
 //@   requires len(list) >= 1 && (forall j int :: 0 <= j && j < len(list) ==> list[j].Frequency > 0)
 //@   ensures wfSchedules(result) && result.currentScheduleIndex == -1 && result.list == list
 //@   ensures timerDelay(result.nextScheduleTimer) == list[0].StartDelay
